@@ -55,7 +55,7 @@ func run(p Plan) (vk.Outcome, error) {
 		select {
 		case <-started:
 			return true
-		case <-time.After(limit):
+		case <-vk.After(limit):
 			return false
 		}
 	}
@@ -74,8 +74,8 @@ func run(p Plan) (vk.Outcome, error) {
 			<-started
 		}
 		before := starts.Load()
-		deadline := time.Now().Add(3 * time.Second)
-		for starts.Load() < before+3 && time.Now().Before(deadline) {
+		waited := vk.ActiveSince() // (active clock: a paused or starved process does not count)
+		for starts.Load() < before+3 && waited() < 3*time.Second {
 			time.Sleep(runTime)
 		}
 		if starts.Load() < before+3 {
@@ -86,7 +86,7 @@ func run(p Plan) (vk.Outcome, error) {
 	go func() { g.StopAndWait(); close(done) }()
 	select {
 	case <-done:
-	case <-time.After(5 * time.Second):
+	case <-vk.After(5 * time.Second):
 		if verr == nil {
 			verr = vk.Violf("stuck", "StopAndWait has not returned 5 s after the stop (the worker is blocked outside its select?)")
 		}
@@ -130,10 +130,10 @@ func runTrigReal(p TrigRealPlan) (vk.Outcome, error) {
 		spinFor(runLen)
 	})
 	waitAbove := func(n int64) bool {
-		deadline := time.Now().Add(3 * time.Second)
+		waited := vk.ActiveSince() // (active clock: a paused or starved process does not count)
 		for i := 0; begun.Load() <= n; i++ {
 			if i > 2000 {
-				if time.Now().After(deadline) {
+				if waited() > 3*time.Second {
 					return false
 				}
 				time.Sleep(20 * time.Microsecond)
